@@ -4,11 +4,11 @@
    position (one colour to move) no two legal moves with different (from,to,kind) share a string; whenever a `position` command is
    accepted, the recorded history is the key of the base position followed by the key of every position of the game, in order,
    and the resulting game is the last of them.
-   FEN field-by-field round trip and `d` (C05_fen_roundtrip_full) are decided per run: generated legal positions -> FEN text
+   FEN texts: C05_fen_text_is_parsed_exactly (every text whose fields describe g parses to exactly g).  Also per run, incl. `d`: generated legal positions -> FEN text
    (independent printer) -> the real parser -> all 18 fields; move lists of generated games -> final fields + history keys;
    acceptance / rejection of mutated move strings; the `d` display through the real main loop. *)
-From Coq Require Import NArith ZArith List Bool String.
-From JV Require Import Gen.Consts Model.Chess Model.SearchChess Model.Fen Model.Abs Proofs.FenProofs Proofs.UciProofs Proofs.LegalInv Proofs.RulesUci Proofs.StartPos Proofs.PositionInv.
+From Coq Require Import NArith ZArith List Bool String Ascii.
+From JV Require Import Gen.Consts Model.Bits Model.Chess Model.SearchChess Model.Fen Model.Abs Proofs.FenProofs Proofs.UciProofs Proofs.LegalInv Proofs.RulesUci Proofs.StartPos Proofs.PositionInv Proofs.GenProofs Proofs.RangeProofs Proofs.ZobristProofs Proofs.ConsProofs Proofs.CellProofs Proofs.FenBoard Proofs.FenText.
 Import ListNotations.
 
 Theorem C05_accepts_only_legal : forall g tok m, parse_move g tok = Some m -> In m (legal_moves g) /\ to_uci m = tok.
@@ -48,6 +48,33 @@ Proof. intros args g rep HD H. split; [exact (position_startpos_reachable args g
 Theorem C05_moves_preserve_the_invariant : forall toks g rep g' rep', legal_inv g -> play_moves g rep toks = FOk (g', rep') -> legal_inv g'.
 Proof. exact play_moves_inv. Qed.
 
+(* FEN texts: for EVERY text  board " " side " " rights " " ep " " halfmove " " fullmove  whose six fields describe a position g with
+   consistent sets, men on board squares, a right key and rights below 16 -- any well-formed board text with g's cells (piece letters,
+   digits 1..8 splitting the empty runs any way, slashes), "w"/"b", any space-free rights text containing exactly the letters of g's
+   rights, "-" or a text square_from_string reads as g's en-passant square, decimal texts of the clocks -- Game::new_from_fen returns
+   exactly g: all six fields, the redundant occupancy sets and the key.  (Quantified over the texts; Proofs/FenBoard.v, FenText.v.) *)
+Theorem C05_fen_text_is_parsed_exactly : forall g tl cs es hs fs,
+  cons g -> range g -> keyok g -> (castling g < 16)%N ->
+  forallb tok_ok tl = true -> expand tl = map (who (st_of g)) (seqN 0 64) ->
+  nospace cs = true ->
+  contains_char cs "K"%char = N.testbit (castling g) 0 -> contains_char cs "Q"%char = N.testbit (castling g) 1 ->
+  contains_char cs "k"%char = N.testbit (castling g) 2 -> contains_char cs "q"%char = N.testbit (castling g) 3 ->
+  nospace es = true -> ((es = "-"%string /\ ep g = NOSQ) \/ (String.eqb es "-" = false /\ square_from_string es = Some (ep g))) ->
+  parse_uint 256 hs = Some (half g) -> parse_uint 65536 fs = Some (full g) ->
+  new_from_fen (render tl ++ " " ++ (if white g then "w" else "b") ++ " " ++ cs ++ " " ++ es ++ " " ++ hs ++ " " ++ fs)%string = FOk g.
+Proof. exact fen_text_parses. Qed.
+(* the board field alone, for every board text *)
+Theorem C05_board_text_is_parsed_exactly : forall g, cons g -> range g -> forall tl,
+  forallb tok_ok tl = true -> expand tl = map (who (st_of g)) (seqN 0 64) ->
+  board_fold (render tl) (repeat 0%N 12, 0%N, 0%N, 0%N, 0%N) = Some (bbs g, wocc g, bocc g, aocc g, 64%N).
+Proof. exact board_text_parses. Qed.
+(* not vacuous: the start position's standard text is such a text *)
+Theorem C05_start_fen_is_such_a_text :
+  start_fen = (render start_tokens ++ " " ++ "w" ++ " " ++ "KQkq" ++ " " ++ "-" ++ " " ++ "0" ++ " " ++ "1")%string /\
+  forallb tok_ok start_tokens = true /\ expand start_tokens = map (who (st_of start_game)) (seqN 0 64) /\
+  parse_uint 256 "0" = Some (half start_game) /\ parse_uint 65536 "1" = Some (full start_game) /\ castling start_game = 15%N.
+Proof. exact start_fen_is_such_a_text. Qed.
+
 Theorem C05_history_recorded : forall args g rep,
   parse_position args = FOk (g, rep) -> exists base ps, rep = hash base :: map hash ps /\ g = last ps base.
 Proof. exact parse_position_history. Qed.
@@ -65,5 +92,8 @@ Print Assumptions C05_acceptance_is_exact.
 Print Assumptions C05_accepted_move_is_legal_under_the_rules.
 Print Assumptions C05_every_legal_move_of_the_rules_is_accepted.
 Print Assumptions C05_history_recorded.
+Print Assumptions C05_fen_text_is_parsed_exactly.
+Print Assumptions C05_board_text_is_parsed_exactly.
+Print Assumptions C05_start_fen_is_such_a_text.
 Print Assumptions C05_startpos_games_stay_inside_the_invariant.
 Print Assumptions C05_moves_preserve_the_invariant.
